@@ -611,6 +611,14 @@ Theorem C06_str_methods_spec : forall chars c new s,
 Proof. exact str_methods_spec. Qed.
 Print Assumptions C06_str_methods_spec.
 
+(* BioBasket(objs).fts.get(name): the answer of the first sequence, in basket order, that has a feature of the type;
+   .select(name): the selections of the sequences one after the other *)
+Theorem C06_get_all_objects : forall name qs,
+  fts_get name (flat_map sfts qs) = first_some (map (fun q => fts_get name (sfts q)) qs) /\
+  fts_select name (flat_map sfts qs) = flat_map (fun q => fts_select name (sfts q)) qs.
+Proof. exact get_all_objects. Qed.
+Print Assumptions C06_get_all_objects.
+
 (* non-vacuity: two cds, the later one further left: sort() changes the answer of the lookup (the history of seeded change C06-21) *)
 Example C06_witness_sort_changes_lookup :
   let late := mkFt (Some (bs "cds"%bs)) [mkLoc 11 17 S_REVERSE 0] in
